@@ -4,7 +4,8 @@
    Mount(mountpoint, labels): one Resolve call for the target layer and, in parallel, one per neighbouring layer of
    the manifest (pre-resolve: on success the layerRef is released with Done at once and only the cache keeps the
    layer).  When the target's Resolve returns a layer, Mount skip-verifies it, takes its root node and registers it
-   under the mountpoint; when it returns an error Mount fails and registers nothing.  (The FUSE server itself and the
+   under the mountpoint; when it returns an error, or when the verification of the resolved layer refuses it (TOC digest
+   mismatch, unparsable or missing digest label), Mount fails, registers nothing and releases the layerRef (Done).  (The FUSE server itself and the
    30 s wait are outside the model; prefetch / background fetch are switched off in the harness.)
    Every Resolve call is a thread of Model/Resolver.v; here a thread additionally has a role: target of a mountpoint
    or neighbour.  A sub-step of such a thread is the Resolver sub-step followed, when it returns a layer, by the
@@ -17,7 +18,8 @@ From SV Require Model.Refcache.
 From SV Require Export Model.Resolver.
 Import ListNotations.
 
-Inductive role := Target (mp : nat) | Neighbour.
+(* vok: the verification Mount performs on the resolved layer (TOC digest label / skip label) will pass *)
+Inductive role := Target (mp : nat) (vok : bool) | Neighbour.
 
 Record fst_ := mkF {
   rs : Resolver.st;
@@ -39,7 +41,7 @@ Fixpoint unreg (mp : nat) (l : list (nat * nat)) : list (nat * nat) :=
   end.
 
 Inductive fop :=
-| FMount (mp n : nat) (nbs : list nat)     (* start Mount: target name n, neighbour names nbs *)
+| FMount (mp n : nat) (vok : bool) (nbs : list nat)   (* start Mount: target name n, neighbour names nbs *)
 | FStep (t : nat) (ok : bool)              (* one sub-step of a Resolve call started by some Mount *)
 | FCheck (mp : nat) (ok1 : bool) (r : rfo)  (* Check: ok1 = connectivity check, r = what the registry answers to the Refresh *)
 | FUnmount (mp : nat)
@@ -56,7 +58,8 @@ Definition after_ret (s : fst_) (r : Resolver.st) (t : nat) (e : ev) (u : nat) :
   match e with
   | ERet _ _ =>
       match nth_error (roles s) t with
-      | Some (Target mp) => mkF r ((mp, u) :: unreg mp (mnts s)) (roles s)   (* fs.layer[mountpoint] = l *)
+      | Some (Target mp true) => mkF r ((mp, u) :: unreg mp (mnts s)) (roles s)   (* fs.layer[mountpoint] = l *)
+      | Some (Target mp false) => mkF (fst (Resolver.step r (Done u))) (mnts s) (roles s)   (* verification refused: deferred l.Done() *)
       | Some Neighbour => mkF (fst (Resolver.step r (Done u))) (mnts s) (roles s)   (* l.Done() *)
       | None => mkF r (mnts s) (roles s)
       end
@@ -72,8 +75,8 @@ Definition check_ev (s : Resolver.st) (u : nat) (ok : bool) : ev :=
 
 Definition fstep (s : fst_) (o : fop) : fst_ * ev :=
   match o with
-  | FMount mp n nbs =>
-      (mkF (starts (rs s) (n :: nbs)) (mnts s) (roles s ++ Target mp :: map (fun _ => Neighbour) nbs), ENone)
+  | FMount mp n vok nbs =>
+      (mkF (starts (rs s) (n :: nbs)) (mnts s) (roles s ++ Target mp vok :: map (fun _ => Neighbour) nbs), ENone)
   | FStep t ok =>
       let '(r, e) := Resolver.step (rs s) (RStep t ok) in
       (after_ret s r t e (length (uh (rs s))), e)
@@ -132,16 +135,16 @@ Fixpoint run_all (s : fst_) (t : nat) (scs : list (list bool)) : fst_ * list ev 
   end.
 
 Inductive cop :=
-| CMount (mp n : nat) (nbs : list nat) (scs : list (list bool))   (* scripts: target first, then neighbours *)
+| CMount (mp n : nat) (vok : bool) (nbs : list nat) (scs : list (list bool))   (* scripts: target first, then neighbours *)
 | COp (o : fop).
 
 Definition cfstep (s : fst_) (o : cop) : fst_ * ev :=
   match o with
-  | CMount mp n nbs scs =>
+  | CMount mp n vok nbs scs =>
       let t0 := length (thrs (rs s)) in
-      let s1 := fst (fstep s (FMount mp n nbs)) in
+      let s1 := fst (fstep s (FMount mp n vok nbs)) in
       let '(s2, es) := run_all s1 t0 scs in
-      (s2, match es with ERet _ _ :: _ => ENone | _ => EErr end)   (* Mount returns nil iff the target resolved *)
+      (s2, match es with ERet _ _ :: _ => if vok then ENone else EErr | _ => EErr end)   (* nil iff resolved and verified *)
   | COp o => fstep s o
   end.
 
